@@ -158,6 +158,11 @@ class C13(object):
                 args += ["--symbols"]
             if rng.chance(0.2):
                 args += ["--append"]
+            if rng.chance(0.35):
+                # pre-existing, compatible targets: a failing run must not modify them either
+                case["pre"] = [k for k in ("bin", "cas", "dsk") if ("out." + k) in args]
+                if "--append" not in args and rng.chance(0.7):
+                    args += ["--append"]
             case["args"] = args
         return case
 
@@ -205,6 +210,9 @@ class C13(object):
             w.put(name, text.encode("utf-8"), who="SETUP")
         for name in sorted(case.get("files", {})):
             res.stats["fault:include_file_present"] += 0
+        for kind in case.get("pre", []):
+            self.put_existing_target(w, kind)
+            res.stats["fault:pre_existing_target"] += 1
         a = assemble(w, "main.asm", texts)
         if a["outcome"] == "HANG":
             # confirm at 8x both budgets before reporting (DESIGN C13)
@@ -235,7 +243,7 @@ class C13(object):
         switches = ""
         if case["mode"] == "cli":
             args = list(case.get("args", []))
-            switches = "".join(sorted(x[5:8] for x in args if x.startswith("--to_")))
+            switches = "".join(sorted(x[5:8] for x in args if x.startswith("--to_"))) + ("+pre" if case.get("pre") else "") + ("+A" if "--append" in args else "")
             r = w.invoke("assembler", ["main.asm"] + args,
                          budget=(process_budget(sum(t.count("\n") + 1 for t in texts.values())) + output_budget(texts.values())) * 8 + 40_000_000)
             res.clock += r.steps
@@ -264,6 +272,24 @@ class C13(object):
                                      str(min(pcr, 5)), case["mode"], switches]))
         res.digest = w.log.digest()
         return res
+
+    @staticmethod
+    def put_existing_target(w, kind):
+        """A small image of the right kind, written earlier by the tool itself (real container code)."""
+        from ..toolapi import to_coco
+        mods = w.mods
+        f = {"name": "OLD", "ext": "BIN", "ftype": 2, "dtype": 0, "load": 0x0E00, "exec": 0x0E00, "data": bytes(range(40))}
+        if kind == "bin":
+            data = bytes(range(1, 60)).replace(b"\x3c", b"\x3d")
+        elif kind == "cas":
+            c = mods["cassette"].CassetteFile()
+            c.add_file(to_coco(f))
+            data = bytes(bytearray(c.get_buffer()))
+        else:
+            c = mods["disk"].DiskFile()
+            c.add_file(to_coco(f))
+            data = bytes(bytearray(c.get_buffer()))
+        w.put("out." + kind, data, who="SETUP")
 
     # -- shrinking ------------------------------------------------------------------------
     def simplify(self, case):
